@@ -59,11 +59,12 @@ CLAIMED = {
          "Trusted: go/ssa, symgo, z3; the OS-boundary and AST/JSON stubs listed in the evidence (each returns an arbitrary outcome within its contract); the assumed representation invariant PhaseInv; the hand-built graph (one fork per node, <=2 chunks, P{PRE,A,C,Q{R{B}}}). Outside: prenode construction from bindings, dynamic fork expansion, real processes and job-manager queues. Also outside: mrjob (how the monitor turns an exit status into _errors), transient-error regexps and mrp attemptRetry, mrp exit code, restart after the fault is removed.", "DESIGN.md §4 (C06)"),
  "C08": ("Every byte string up to 3 (thorough 4) bytes is run symbolically through the real lexer step, the scanner loop, and the whole "
          "expression parser (yacc tables + grammar actions); 19/20-digit integer tokens and 8-hex-digit \\U escapes get their own harnesses. "
+         "Include resolution (parseSource/getIncludes/checkIncludes/merge) runs on 1..3 (4) files with an arbitrary include relation: an error exactly for reachable cycles, no unbounded recursion. "
          "An uncaught Go panic on any path is a violation with concrete bytes, replayed natively. Partial: lexer contract and "
          "token-consuming actions, not arbitrary long token sequences.",
          "Trusted: go/ssa, symgo, regex VM model, z3 / cvc5 --solve-bv-as-int (integer-token harness). The numeric value of a "
-         "symbolic float literal is cut to an opaque value (float range errors outside). Outside: long inputs, include "
-         "resolution, compile passes, time/memory proportionality.",
+         "symbolic float literal is cut to an opaque value (float range errors outside). Outside: long inputs, larger include "
+         "graphs, compile passes, time/memory proportionality.",
          "DESIGN.md §4 (C08)"),
  "C09": ("String values of up to 3 (thorough 4) arbitrary bytes, source literals built from two atoms (raw byte, simple/octal/hex "
          "escape), src commands, @include paths and integers below 10^3 (10^4) are symbolic; the real quoteString, lexer, unquote, "
